@@ -60,6 +60,11 @@ void Input(util::UnboundedSingleQueue<QueueEntry> &queue, util::scoped_fd &proce
       RangeFields(l, indices, options.field_separator, callback);
       entry.first = callback.get_hash();
       std::pair<std::unordered_map<uint64_t, util::StringPiece>::iterator, bool> res(cache.insert(entry));
+      // Pointer to hash table entry.  Tell the output thread before feeding the
+      // captive process: writing a long line blocks until the process's answer
+      // is being read, and the output thread only reads once it has this entry.
+      q_entry.value = &res.first->second;
+      queue.Produce(q_entry);
       if (res.second) {
         // New entry.  Send to captive process.
         process << l << '\n';
@@ -69,9 +74,6 @@ void Input(util::UnboundedSingleQueue<QueueEntry> &queue, util::scoped_fd &proce
           flush_count = flush_rate;
         }
       }
-      // Pointer to hash table entry.
-      q_entry.value = &res.first->second;
-      queue.Produce(q_entry);
     }
   }
   // Poison.
